@@ -5,7 +5,8 @@ M : MC_Hashes — the TLA+ transcription of SHA-256 (FIPS 180-4), BLAKE3 (single
     boundaries, multi-block messages); the constants of Keccak are computed from their definitions inside the spec.
 R : GEN_Hash — word / byte patterns (constant, counting, alternating, one-hot at word and byte boundaries,
     pseudo-random) x every exported hash procedure (sha256::hash_2to1 / hash_1to1 / hash_memory, blake3::hash_2to1 /
-    hash_1to1, keccak256::hash / to_bit_interleaved / from_bit_interleaved, native::hash_memory) with the digest the
+    hash_1to1, keccak256::hash / to_bit_interleaved / from_bit_interleaved, native::hash_memory / hash_memory_even /
+    state_to_digest) with the digest the
     specification prescribes; each is run on the real VM (both build profiles, sentinels underneath) and compared.
     The native RPO helper is compared with the specification's sponge recipe evaluated with the permutation the
     VM's hasher uses, and with hash_elements.
@@ -40,11 +41,17 @@ def build(c):
             pre += "  push.%d.%d.%d.%d push.%d mem_storew dropw\n" % (ws[k + 3], ws[k + 2], ws[k + 1], ws[k], MEM + k // 4)
         ins = [limbs(MEM), limbs(x["len"])]
         out = [w2l(w) for w in x["out"]]
+    elif m == "native" and p == "state_to_digest":
+        # [C, B, A, ...]: the state in reverse order, its last element on top
+        ins = list(reversed(x["state"]))
+        out = list(reversed(x["digest"]))
     elif m == "native":
         es = [unlimbs(e) for e in x["elems"]]
         for k in range(0, len(es), 4):
             pre += "  push.%d.%d.%d.%d push.%d mem_storew dropw\n" % (es[k], es[k + 1], es[k + 2], es[k + 3], MEM + k // 4)
         ins = [limbs(MEM), limbs(MEM + len(es) // 4)]
+        if p == "hash_memory_even":
+            ins = list(reversed(x["state"])) + ins
         out = None
     else:
         ins = [w2l(w) for w in x["inw"]]
@@ -99,7 +106,11 @@ def run(tier, replay=None):
     with open(inp, "w") as f:
         for c, rf in zip(cases, refs):
             src, ins, out = build(c)
-            if out is None:
+            if out is None and c["proc"] == "hash_memory_even":
+                # [C', B', A', end_addr, end_addr, ...]
+                end = limbs(MEM + len(c["x"]["elems"]) // 4)
+                out = list(reversed(rf["state"])) + [end, end]
+            elif out is None:
                 # digest word on the stack: element 3 on top (the hperm convention: [C, B, A] with the last state element on top)
                 out = list(reversed(rf["recipe"]))
             rec = {"src": src, "stdlib": True, "inputs": ins + SENTINELS, "adv": []}
@@ -120,7 +131,7 @@ def run(tier, replay=None):
             st = out + SENTINELS
             exp = {"ok": "ok", "stack": st + [[0, 0, 0, 0]] * max(0, 16 - len(st))}
             d = expected_vs_actual(exp, res)
-            if not d and c["mod"] == "native" and rf["recipe"] != rf["hash_elements"]:
+            if not d and "hash_elements" in rf and rf["recipe"] != rf["hash_elements"]:
                 d = "hash_elements of the VM's hasher differs from the sponge definition: recipe %s hash_elements %s" % (rf["recipe"], rf["hash_elements"])
             if d:
                 ck.violation("hash:%s:%s::%s" % (prof, c["mod"], c["proc"]), d + " | pattern " + json.dumps(c["pat"]),
